@@ -92,6 +92,7 @@ type Param struct {
 
 type Cond struct {
 	Name   string  `json:"name"`
+	Key    string  `json:"key,omitempty"` // map key when it differs from the name (the printer rejects that)
 	Params []Param `json:"params"`
 	Expr   string  `json:"expr"`
 	Module string  `json:"module,omitempty"`
@@ -249,7 +250,11 @@ func (m *Model) toProto() *openfgav1.AuthorizationModel {
 					pc.Metadata.SourceInfo = &openfgav1.SourceInfo{File: c.File}
 				}
 			}
-			pm.Conditions[c.Name] = pc
+			key := c.Name
+			if c.Key != "" {
+				key = c.Key
+			}
+			pm.Conditions[key] = pc
 		}
 	}
 	return pm
